@@ -81,6 +81,9 @@ def _evaluate(case):
             except CaseTimeout:
                 raise
             except Exception as e:  # noqa: BLE001
+                if ref is None:
+                    # the query itself fails (first schedule): nothing to compare
+                    return {"status": "inapplicable", "viols": [], "info": {"why": short(e)}}
                 viols.append({"kind": "schedule_raises:" + exc_kind(e), "detail": f"schedule #{nsched}: {short(e)}"})
                 break
             for task, victim in muts:
@@ -164,8 +167,8 @@ def shrink(case):
 
 def run(ctx):
     quick = ctx.tier == "quick"
-    cap = 120 if quick else 1500
-    progs = [[o.name] for o in O.alphabet(2)] + DEPTH2
+    cap = 60 if quick else 1500
+    progs = [[o.name] for o in O.alphabet(2) if O.applicable(o, "df")] + DEPTH2
     cases = []
     for src in (["T:2"] if quick else ["T:2", "T:3", "T:1"]):
         for ops in progs:
